@@ -46,6 +46,11 @@ type Case struct {
 	// The resumed search has to end; its answer holds every matching document of the
 	// surviving fractions and nothing that was never stored.
 	Retire bool `json:"retire,omitempty"`
+	// Remap: the process that resumes the search after the crash runs with a mapping that
+	// indexes only the field svc (an operator has edited the mapping file).  When the persisted
+	// query names another field it no longer parses: the search has to end as failed - every
+	// fetch answers (no hang), the store stays up, also after one more restart.
+	Remap bool `json:"remap,omitempty"`
 	// BadAgg: the only aggregation asks for a number function over the text field svc; when a
 	// matching document carries a non-numeric value the synchronous search fails with an error.
 	// The asynchronous search then has to fail too - reported by the fetch, with the store
@@ -109,6 +114,9 @@ func genCase(t *rapid.T) Case {
 	}
 	if c.N > 0 && len(c.Late) == 0 && c.K > 1 {
 		c.Retire = rapid.IntRange(0, 3).Draw(t, "retire") == 3
+	}
+	if c.N > 0 && len(c.Late) == 0 && !c.Retire && !c.BadAgg && !c.Huge {
+		c.Remap = rapid.IntRange(0, 4).Draw(t, "remap") == 4
 	}
 	return c
 }
@@ -410,6 +418,9 @@ func runCase(c Case) (evid.Result, error) {
 			res.Labels = append(res.Labels, "late-fraction-before-resume")
 			lateIngested = true
 		}
+		if c.Remap {
+			return resumeRemapped(&c, dir, opts, id, text, res)
+		}
 		p, err = harness.OpenProcAsync(dir, opts, c.Fsync, true)
 		if err != nil {
 			return res, evid.Failf("no-start", "after crash %d: %v", crashes, err)
@@ -518,6 +529,52 @@ func runCase(c Case) (evid.Result, error) {
 	}
 	if len(contributing) >= 2 {
 		res.Labels = append(res.Labels, "fracs-contributing>=2")
+	}
+	return res, nil
+}
+
+// resumeRemapped: the store comes back with a mapping that indexes svc only.  Whatever the
+// persisted query then means - it may still parse - every fetch has to answer within its time,
+// with a result, a failure or "unknown search"; never a hang, never a dead store.
+func resumeRemapped(c *Case, dir string, opts harness.StoreOpts, id, text string, res evid.Result) (evid.Result, error) {
+	res.Labels = append(res.Labels, "resumed-under-another-mapping")
+	res.NonTrivial = true
+	for round := 0; round < 2; round++ {
+		p, err := harness.OpenProcAsyncMapped(dir, opts, c.Fsync, true, []string{"svc"})
+		if err != nil {
+			return res, evid.Failf("no-start", "resumption %d under the edited mapping: %v", round, err)
+		}
+		deadline := time.Now().Add(40 * time.Second)
+		for {
+			r, err := p.Do(harness.PCmd{Op: "fetchasync", ID: id, Aggs: c.Aggs})
+			if err != nil {
+				return res, evid.Failf("died-in-async", "resumption %d of %q under a mapping that indexes svc only: the store died: exit %d %s", round, text, p.Exit, p.StderrTail())
+			}
+			if !r.OK {
+				p.Kill()
+				return res, evid.Failf("fetch-hangs-after-failed-resumption", "resumption %d of %q under a mapping that indexes svc only: %s", round, text, r.Err)
+			}
+			if !r.Found || r.Failed != "" || r.Done {
+				if r.Failed != "" {
+					res.Labels = append(res.Labels, "resumed-search-failed-cleanly")
+				}
+				break
+			}
+			if time.Now().After(deadline) {
+				p.Kill()
+				return res, evid.Failf("async-never-done", "resumption %d: neither done nor failed after 40 s", round)
+			}
+			time.Sleep(2 * time.Millisecond)
+		}
+		// the store still serves synchronous searches
+		if sr, err := p.Do(harness.PCmd{Op: "search", Req: &model.SearchReq{Q: model.All(), From: 0, To: 1 << 41, Limit: 5}, Text: "*"}); err != nil || !sr.OK {
+			return res, evid.Failf("store-unusable", "after the resumption: %v %+v", err, sr)
+		}
+		res.Evals++
+		if err := p.StopGraceful(); err != nil {
+			p.Kill()
+			return res, evid.Failf("stop-failed", "after the resumption under the edited mapping: %v", err)
+		}
 	}
 	return res, nil
 }
